@@ -37,6 +37,9 @@ class NEFoersterRelaxationTensor(TDFoersterRelaxationTensor):
         
         
         """
+        # the data calculated below are not secular, whatever was done
+        # to the data they replace
+        self.is_secular = False
         
         
         tt = self.SystemBathInteraction.TimeAxis.data
